@@ -310,21 +310,26 @@ PROPS["C01"] = _cw20_prop("C01", 0, C01_CLAUSES, "supply and listed balances",
     "Axiom-free Coq theorems over the transliterated cw20-base handlers: for every accepted instantiation and every finite "
     "history of calls (any senders, amounts over the whole u128 range, failures included) supply = sum of balances and "
     "<= 2^128-1 (induction over the history); every successful call has exactly the deltas of its operation (c01_model_delta); "
-    "failed calls change nothing. Tie to the Rust: generated histories on the real contract, S_C01 evaluated in Coq on every "
+    "failed calls change nothing; the step contract S_C01 itself is proved never to fire on the model's own transitions "
+    "(c01_contract_never_fires_on_model). Tie to the Rust: generated histories on the real contract, S_C01 evaluated in Coq on every "
     "implementation step plus model/implementation equality of supply and balances (measured, not proved).")
 PROPS["C02"] = _cw20_prop("C02", 1, C02_CLAUSES, "balances, owner allowance table and emitted messages",
     "Axiom-free Coq theorems: a balance decreases only by its holder's own call or by a draw on a stored, unexpired, sufficient "
     "allowance that is lowered by exactly the amount moved; allowance entries change only by the owner's increase/decrease or "
     "the spender's draw; over every history drawn + remaining <= granted (ghost sums, induction); Send/SendFrom notify exactly "
-    "once with the true initiator. Tie to the Rust: S_C02 evaluated in Coq on every step of generated histories on the real "
+    "once with the true initiator; the step contract S_C02 (all 5 clauses) is proved never to fire on the model's own transitions "
+    "(c02_contract_never_fires_on_model). Tie to the Rust: S_C02 evaluated in Coq on every step of generated histories on the real "
     "contract (expiry at the call's block, decrease-vs-draw races) plus model/implementation equality (measured).")
 PROPS["C13"] = _cw20_prop("C13", 2, C13_CLAUSES, "supply and minter/cap",
     "Axiom-free Coq theorems: supply grows only in a Mint by the registered minter; supply <= cap in every reachable state; "
     "the role changes only by the current minter's UpdateMinter and keeps the cap; after renouncing nobody ever mints or "
-    "becomes minter again (induction over histories). Tie to the Rust as for C01 (S_C13 + equality of supply and minter).")
+    "becomes minter again (induction over histories); the balances themselves never add up to more than the cap "
+    "(c13_balances_within_cap); S_C13 is proved never to fire on the model (c13_contract_never_fires_on_model). Tie to the Rust as "
+    "for C01 (S_C13 + equality of supply and minter).")
 PROPS["C19"] = _cw20_prop("C19", 3, C19_CLAUSES, "owner and spender allowance listings",
     "Axiom-free Coq theorems: in every reachable state the owner-keyed and spender-keyed allowance tables mirror each other "
-    "(invariant by induction over histories), and migrate establishes the mirror from EVERY pre-0.14 table. Tie to the Rust: "
+    "(invariant by induction over histories), and migrate establishes the mirror from EVERY pre-0.14 table; S_C19 is proved never "
+    "to fire on a state satisfying the invariant (c19_contract_never_fires_on_model). Tie to the Rust: "
     "on every step of generated histories (incl. a stripped legacy layout followed by migrate) the three query views are "
     "compared in Coq (S_C19) and both listings are compared with the model's tables (measured).")
 
@@ -455,7 +460,9 @@ PROPS["C09"] = _cw4_prop("C09", 0, C09_CLAUSES, "member list, total and all at-h
     "the sum of the listed weights; Member{a, at_height=h} for EVERY address and height equals the weight after the last call "
     "in a block < h (nothing up to the instantiation block), likewise TotalWeight{at_height} of cw4-group (induction over "
     "histories on a per-key changelog invariant); plus an abstract soundness theorem turning the per-step contract S_C09 "
-    "(answers for h <= block frozen, h > block = current) into that history statement. Tie to the Rust: S_C09 evaluated in Coq "
+    "(answers for h <= block frozen, h > block = current) into that history statement; an accepted UpdateMembers leaves every "
+    "removed address without membership, every other added address with its listed weight and nobody else changed "
+    "(c09_update_members_pointwise). Tie to the Rust: S_C09 evaluated in Coq "
     "on every implementation step for every pool address and every height 0..H+2, raw reads vs smart queries, and "
     "model/implementation equality of all those answers (measured).")
 PROPS["C10"] = _cw4_prop("C10", 1, C10_CLAUSES, "stakes, claims, holdings and payout messages",
